@@ -868,6 +868,9 @@ impl Prop for C02 {
             }
         };
         *self.stats.borrow_mut() = stats;
+        if std::env::var("C02_DEBUG").is_ok() {
+            eprintln!("worlds generated: {}", worlds.len());
+        }
         for w in &worlds {
             for q in w.accepted() {
                 let tags: Vec<String> = q.gq.features.iter().cloned().collect();
@@ -888,6 +891,10 @@ impl Prop for C02 {
     }
     fn eval(&self, request: &Sexp) -> Option<String> {
         let (h, args) = request.as_call()?;
+        if std::env::var("C02_DEBUG").is_ok() {
+            let line = request.to_string();
+            eprintln!("eval {} bytes: {}", line.len(), &line[line.len().saturating_sub(300)..]);
+        }
         match h {
             "batch-exec" => eval_batch_exec(args),
             "batch-numbers" => eval_batch_numbers(args),
